@@ -693,9 +693,94 @@ class DocTriples(Space):
         return Outcome(viol=list(seen.items()), tags=sorted(set(tags)), obs=hash(out), traces=len(log))
 
 
+SEG_TOKENS = ["aa", "Bb.", "{% t %}", "{% /t %}", "<!-- c -->", "c"]
+_SEG_TAG_END = re.compile(r"(%\}|#\}|\}\}|-->)$")
+_SEG_TAG_START = re.compile(r"^(\{%|\{#|\{\{|<!--)")
+
+
+def seg_model(text):
+    """Reference segmentation of a paragraph for width <= 0: hard breaks, and newlines next to a tag, are kept; every
+    other run of whitespace is one space.  -> list of segments (each a list of words)."""
+    segs = []
+    for hb in re.split(r"\\\n|  \n", text):
+        lines = hb.split("\n")
+        cur = lines[0].split()
+        for prev, ln in zip(lines, lines[1:]):
+            if _SEG_TAG_END.search(prev.rstrip()) or _SEG_TAG_START.search(ln.lstrip()):
+                segs.append(cur)
+                cur = ln.split()
+            else:
+                cur += ln.split()
+        segs.append(cur)
+    return segs
+
+
+class SegmentsWidth0(Space):
+    """width <= 0: exactly one line per paragraph, hard-break segment or tag-delimited segment (both wrap modes, Markdown)."""
+
+    prop = "C05"
+    name = "segments-width0"
+
+    def __init__(self, maxn):
+        self.maxn = maxn
+        self.floors = {"tag-boundary": 200, "hard-break": 200}
+
+    def cases(self):
+        for n in range(1, self.maxn + 1):
+            for ks in itertools.product(range(len(SEG_TOKENS)), repeat=n):
+                for seps in itertools.product(("sp", "nl", "hb"), repeat=n - 1):
+                    if seps.count("hb") > 1:
+                        continue
+                    for width in (0, -1):
+                        for sem in (False, True):
+                            yield (ks, seps, width, sem)
+
+    def _text(self, case):
+        ks, seps, width, sem = case
+        return "zz " + docspace.join_tokens([SEG_TOKENS[k] for k in ks], seps) + "\n"
+
+    def describe(self, case):
+        return {"text": self._text(case), "width": case[2], "semantic": case[3]}
+
+    def smaller(self, case):
+        ks, seps, width, sem = case
+        for i in range(len(ks)):
+            if len(ks) > 1:
+                yield (ks[:i] + ks[i + 1:], seps[:i] + seps[i + 1:] if i < len(seps) else seps[:-1], width, sem)
+        for i in range(len(ks)):
+            if ks[i]:
+                yield (ks[:i] + (0,) + ks[i + 1:], seps, width, sem)
+        for i in range(len(seps)):
+            if seps[i] != "sp":
+                yield (ks, seps[:i] + ("sp",) + seps[i + 1:], width, sem)
+        if sem:
+            yield (ks, seps, width, False)
+        if width:
+            yield (ks, seps, 0, sem)
+
+    def evaluate(self, case):
+        ks, seps, width, sem = case
+        text = self._text(case)
+        segs = seg_model(text.rstrip("\n"))
+        out = reformat_text(text, width=width, semantic=sem, cleanups=False)
+        lines = out.rstrip("\n").split("\n")
+        tags = []
+        if len(segs) > 1:
+            tags.append("hard-break" if "hb" in seps else "tag-boundary")
+        viol = []
+        got = [re.sub(r"\\$", "", ln).split() for ln in lines if ln.strip()]
+        want = [s_ for s_ in segs if s_]
+        flat = lambda xs: [w.lstrip("\\") for x in xs for w in x]  # noqa: E731
+        if flat(got) != flat(want):
+            viol.append(("width0:words", {"input": text, "output": out}))
+        elif len(got) != len(want):
+            viol.append(("width0:segments", {"input": text, "output": out, "expected_lines": [" ".join(x) for x in want]}))
+        return Outcome(viol=viol, tags=tags, obs=hash(out))
+
+
 def spaces(tier):
     if tier == "quick":
         return [FillCore(7, 4, 4), Markers(3, 7), Atomic(3, [0, 1, 5, 8, 9, 10, 12, 14, 20]), FillText(10, 3),
-                Sentence(3, [22, 24, 30], [(0, 0), (2, 2), (6, 4)]), DocTriples(1, 3, [0, 1, 6, 9, 12])]
+                Sentence(3, [22, 24, 30], [(0, 0), (2, 2), (6, 4)]), DocTriples(1, 3, [0, 1, 6, 9, 12]), SegmentsWidth0(4)]
     return [FillCore(8, 5, 4), Markers(4, 7), Atomic(3, [0, 1, 5, 8, 9, 10, 12, 14, 17, 20, 24, 30]), FillText(11, 4),
-            Sentence(3, [22, 24, 30, 40], [(0, 0), (2, 2), (6, 4)]), DocTriples(2, 3, [0, 1, 6, 9, 12, 20])]
+            Sentence(3, [22, 24, 30, 40], [(0, 0), (2, 2), (6, 4)]), DocTriples(2, 3, [0, 1, 6, 9, 12, 20]), SegmentsWidth0(5)]
